@@ -713,6 +713,49 @@ static void op_garbage(vh_rng* r) {
   if (mo_destructed != d0) { vh_count("threshold_collections_that_freed_something"); }
 }
 
+
+/* ---------- copy of an object whose Assign makes a deep copy ----------
+** PDeep's Assign allocates the copies of its two children one after the other, with a little garbage in between (as a
+** user type that owns sub-objects does).  While it runs, the half-built copy is referenced from the stack frames of
+** copy, assign and PDeep_Assign: what it already holds must survive a collection that lands inside the assignment. */
+struct PDeep { int64_t ida, idb; var a; var b; };
+static vh_rng* deep_rng;
+static void PDeep_Assign(var self, var obj) {
+  struct PDeep* p = self; struct PDeep* o = obj;
+  (void)o;
+  p->ida = next_id++;
+  p->a = new(PNode, $I(p->ida));
+  int junk = (int)vh_below(deep_rng, 40);
+  for (int i = 0; i < junk; i++) { var g = new(Int, $I(i)); (void)g; }
+  p->idb = next_id++;
+  p->b = new(PNode, $I(p->idb));
+  for (int i = 0; i < junk / 2; i++) { var g = new(Int, $I(i)); (void)g; }
+}
+static var PDeep = Cello(PDeep, Instance(Assign, PDeep_Assign));
+
+static void deep_copies(vh_rng* r, int n) {
+  deep_rng = r;
+  volatile var src = new(PDeep);
+  assign(src, src);                    /* fills the source's own children */
+  for (int k = 0; k < n; k++) {
+    volatile var c = copy(src);
+    struct PDeep* p = c;
+    vh_evals(4);
+    if (mo_state[p->ida] != MO_CONSTRUCTED || mo_state[p->idb] != MO_CONSTRUCTED) {
+      vh_violation(K("reachable-object-finalised"), "copy %d of an object with a deep-copying Assign: a child the copy holds (ids %" PRId64 ", %" PRId64 ": states %d, %d) was finalised while the copy was being built",
+        k, p->ida, p->idb, mo_state[p->ida], mo_state[p->idb]);
+      break;
+    }
+    if (!mem(gc, p->a) || !mem(gc, p->b) || !mem(gc, c)) { vh_violation(K("reachable-object-not-registered"), "copy %d of an object with a deep-copying Assign: the copy or one of its children is not registered", k); break; }
+    if (((struct PNode*)p->a)->id != p->ida || ((struct PNode*)p->b)->id != p->idb) { vh_violation(K("reachable-object-overwritten"), "copy %d: a child of the copy reads back another id", k); break; }
+    struct PDeep* s0 = src;
+    if (mo_state[s0->ida] != MO_CONSTRUCTED || mo_state[s0->idb] != MO_CONSTRUCTED) { vh_violation(K("reachable-object-finalised"), "a child of the source object was finalised during copy %d", k); break; }
+    c = NULL;
+  }
+  vh_count_n("deep_copies_checked", (uint64_t)n);
+  src = NULL;
+}
+
 /* ---------- one case ---------- */
 
 static void reset_world(var* roots) {
@@ -765,6 +808,7 @@ static void __attribute__((noinline)) run_random_case(vh_rng* r, int nops, int h
     if (check_c17 && (op % 16 == 0)) { registry_vs_ledger("after operation"); }
     if (count_alive() > 700) { for (int k = 0; k < 6; k++) { op_unlink(r); } }
   }
+  if (check_c01) { deep_copies(r, 40); }
   forced_collection("final forced collection");
   registry_vs_ledger("final");
   if (nops >= 20) { vh_nontrivial(); }
